@@ -41,6 +41,7 @@ verus! {
 //@verify node_with_domains_new_empty
 //@verify mark_duplicates_canonized_multiple
 //@verify mark_duplicates_canonized_single
+//@verify evalcontext_new
 //@verify from_multiple_trees
 //@verify from_single_tree
 
